@@ -91,7 +91,7 @@ Print Assumptions C07_already_present_empty.
 (* git apply --3way succeeds only with the merge result (so a tree produced through the
    temp index is the three-way merge) *)
 Theorem C07_apply_is_merge :
-  forall o c t r, apply3way o c t = Some r -> merge3 o c t = Some r.
+  forall w o c t r, apply3way w o c t = Some r -> merge3 o c t = Some r.
 Proof. exact apply_is_merge. Qed.
 Print Assumptions C07_apply_is_merge.
 
